@@ -232,6 +232,40 @@ def restart_replay_guard(F, rule):
 					res = P4_guarded(F, rule, cu, acts, ds, True, 'funding spend matured (height + ANTI_REORG_DELAY - 1 <= best height)', key='restart-replay-waits-for-maturity')
 					okg = all(r.ok for r in res)
 					out += res
+	# the HTLC list of the confirmed commitment: whichever unrevoked counterparty commitment confirmed (current OR previous), its own
+	# HTLC list is looked up - otherwise every HTLC that IS an output of the confirmed previous commitment counts as "not included" and
+	# is reported failed after the restart although the counterparty can still claim it
+	gu = F.func(gfn)
+	gex = Expr(gu)
+	lookups = set()
+	for b, ci in gu.calls():
+		f = norm(ci.get('f') or '')
+		if f.endswith('::get') and ci['args'] and 'counterparty_claimable_outpoints' in expr_str(gex.of_operand(ci['args'][0])):
+			a1 = gex.of_operand(ci['args'][1]) if len(ci['args']) > 1 else None
+			# keyed by the function's txid parameter (not by one of the stored commitment txids)
+			if a1 is not None and not any(x in expr_str(a1) for x in ('current_counterparty_commitment_txid', 'prev_counterparty_commitment_txid')):
+				lookups.add(b)
+	rets = {bi for bi, b in enumerate(gu.blocks) if b['t'][1] == 'ret'}
+	for fld in ('current_counterparty_commitment_txid', 'prev_counterparty_commitment_txid'):
+		eqs = []
+		for b, ci in gu.calls():
+			nm = norm(ci.get('t') or ci.get('f') or '')
+			if nm.endswith('PartialEq::eq') or nm.endswith('PartialEq::ne'):
+				txt = ' '.join(expr_str(gex.of_operand(a)) for a in ci['args'])
+				if txt.count(fld) == 1 and 'counterparty_claimable_outpoints' not in txt:
+					eqs.append((b, nm.endswith('::ne')))
+		if not eqs or not lookups:
+			out.append(Result(rule, False, 'replay:confirmed-htlc-list/' + fld, 'get_onchain_failed_outbound_htlcs: %s' % ('no comparison of the confirmed txid with funding.%s' % fld if not eqs else 'no lookup of counterparty_claimable_outpoints by the confirmed txid'), 1, where=F.where(gfn)))
+			continue
+		okc = True
+		for b, neg in eqs:
+			ds = call_decisions(gu, [b], 'bool', neg)
+			starts = [e[1] for d in ds for e in d.true_edges]
+			if not starts or gu.path(starts, rets, removed_blocks=lookups) is not None:
+				okc = False
+		out.append(Result(rule, okc, ('ok:' if okc else 'replay:') + 'confirmed-htlc-list/' + fld,
+			'get_onchain_failed_outbound_htlcs: when the confirmed commitment is funding.%s its HTLC list is %slooked up in counterparty_claimable_outpoints (a confirmed unrevoked counterparty commitment - current or previous - must be compared with its own HTLCs, not with the empty list)' % (fld, '' if okc else 'NOT always '),
+			len(eqs) + len(lookups), where=None if okc else F.where(gfn)))
 	if not okg:
 		out.append(Result(rule, False, 'guard:restart-replay-waits-for-maturity', 'get_onchain_failed_outbound_htlcs: a funding spend still awaiting its confirmation threshold is reported as confirmed without the maturity test (%d site(s), %d open-coded test(s)) - after a restart HTLCs missing from a commitment with 1-5 confirmations are failed back upstream although a reorg can still put them on chain' % (nsite, n_oc), nsite, where=F.where(gfn)))
 	return out
